@@ -31,23 +31,24 @@ type segRec struct {
 
 type recWorld struct {
 	*winWorld
-	inbox     []*Decoded // emitted data segments the peer has not looked at yet
-	segs      map[int64]*segRec
-	order     []int64 // segment starts in first-emission order
-	got       []bool  // bytes the peer holds
-	cum       int64   // peer's cumulative ack offset
-	lastAckNo int64   // number carried by the last ACK the peer sent (-1 none)
-	repeats   int     // how many times in a row that number was repeated (same window, no data)
-	dupTotal  int     // duplicate ACKs delivered so far
-	ackedSegs int     // segments newly acknowledged so far
-	acksSent  int
-	rtoSeen   bool  // a retransmission was emitted while only the clock moved
-	recover   int64 // highest offset sent when the last loss recovery (fast or RTO) started
-	inAdvance bool
-	lose      map[int64]int // segment start -> how many more times the peer will not see it
-	firstAck  bool
-	win       uint16
-	division  bool // this run's receiver also acknowledges in the middle of segments
+	inbox       []*Decoded // emitted data segments the peer has not looked at yet
+	segs        map[int64]*segRec
+	order       []int64 // segment starts in first-emission order
+	got         []bool  // bytes the peer holds
+	cum         int64   // peer's cumulative ack offset
+	lastAckNo   int64   // number carried by the last ACK the peer sent (-1 none)
+	repeats     int     // how many times in a row that number was repeated (same window, no data)
+	dupTotal    int     // duplicate ACKs delivered so far
+	ackedSegs   int     // segments newly acknowledged so far
+	acksSent    int
+	rtoSeen     bool  // a retransmission was emitted while only the clock moved
+	recover     int64 // highest offset sent when the last loss recovery (fast or RTO) started
+	inAdvance   bool
+	lose        map[int64]int // segment start -> how many more times the peer will not see it
+	firstAck    bool
+	win         uint16
+	division    bool          // this run's receiver also acknowledges in the middle of segments
+	lastAdvance time.Duration // when the peer last sent an ACK that moved its cumulative position
 }
 
 func (scRecovery) NeutralISS(raw json.RawMessage) json.RawMessage { return neutralWin(raw) }
@@ -192,7 +193,9 @@ func (w *recWorld) sendAck() {
 	// asserted for the first loss episode of a connection only: after a recovery the
 	// NewReno 'recover' rule (RFC 6582) legitimately suppresses fast retransmits for
 	// data that was already in flight
-	eligible := third && !w.rtoSeen && w.Probes["fast_retransmits"] == 0 && w.recover == 0
+	// ... a timeout sets 'recover' to the highest byte sent so far: once the duplicated number
+	// is beyond it, three duplicates must trigger a fast retransmission again
+	eligible := third && w.Probes["fast_retransmits"] == 0 && (w.recover == 0 && !w.rtoSeen || w.rtoSeen && w.cum >= w.recover)
 	w.Tracef("peer ack off=%d dup=%v repeats=%d eligible=%v recover=%d sackopts=%d", w.cum, isDup, w.repeats, eligible, w.recover, len(opts))
 	p.Send(codec.FlagACK, p.SndNxt, p.RcvNxt, w.win, opts, nil)
 	w.acksSent++
@@ -225,6 +228,7 @@ func (w *recWorld) sendAck() {
 func (w *recWorld) ackTo(to int64) {
 	if to > w.cum {
 		w.cum = to
+		w.lastAdvance = time.Since(w.T0) // an ACK that advances restarts the retransmission timer
 		for _, o := range w.order {
 			if s := w.segs[o]; !s.acked && s.end <= w.cum {
 				s.acked = true
@@ -350,8 +354,18 @@ func (w *recWorld) apply(s Step) {
 			if gap < 200*time.Millisecond && w.Probes["fast_retransmits"] == 0 {
 				w.Fail("rto-too-early", "", "peer silent: segment at offset %d retransmitted %v after its previous transmission (minimum 200 ms)", first, gap)
 			}
-			// doubling is between successive retransmissions: the first interval may
-			// include a timer restart by an ACK that arrived before the silence
+			// doubling is between successive retransmissions; the first timeout is measured from
+			// the moment the timer was last (re)started: the segment's previous transmission, or
+			// the last ACK that advanced, whichever is later
+			if i == 2 && w.Probes["fast_retransmits"] == 0 {
+				start := ts[0]
+				if w.lastAdvance > start {
+					start = w.lastAdvance
+				}
+				if t1 := ts[1] - start; t1 >= 200*time.Millisecond && gap < 2*t1-time.Millisecond {
+					w.Fail("backoff-not-doubling", "", "peer silent: the first timeout for the segment at offset %d came %v after the timer's last restart, the next retransmission only %v later (at %v and %v): the timeout did not double", first, t1, gap, ts[1], ts[2])
+				}
+			}
 			if i >= 3 {
 				if prev := ts[i-1] - ts[i-2]; gap < 2*prev && w.Probes["fast_retransmits"] == 0 {
 					w.Fail("backoff-not-doubling", "", "peer silent: segment at offset %d transmitted at %v, %v and %v - the interval %v is less than twice the previous one (%v)", first, ts[i-2], ts[i-1], ts[i], gap, prev)
